@@ -263,3 +263,35 @@ Definition py_slice_spec (len : Z) (a b s : option Z) (l : list Z) : Prop :=
     nth_error l n =
     (let x := py_start len step a + Z.of_nat n * step in
      if py_before step x (py_stop len step b) then Some x else None).
+
+(* ---------- iterator protocol, read off the history by counting ---------- *)
+(* Python's iterator protocol for a sequence-like container: every iter(ds) is a NEW iterator over the samples
+   0, 1, ..., len-1; an iterator owns its position; once it has raised (StopIteration or any exception out of the
+   sample it was loading) it stays finished; iter(it) is it.  Stated WITHOUT a state: what a step on iterator k must
+   deliver is read off the steps before it (most recent first, each with how it ended: 0 = it returned normally) --
+   walk back to the creation of iterator k, counting the samples it has handed out since.  Steps on other iterators,
+   indexing and len() in between are skipped: they cannot matter. *)
+Fixpoint yielded_since_iter (k : nat) (past : list (op * nat)) (cnt : nat) : option nat :=
+  match past with
+  | [] => None                                        (* never created: like a finished iterator *)
+  | (OpIter j, _) :: r => if Nat.eqb j k then Some cnt else yielded_since_iter k r cnt
+  | (OpNext j, kd) :: r =>
+      if Nat.eqb j k then (if Nat.eqb kd 0 then yielded_since_iter k r (S cnt) else None)
+      else yielded_since_iter k r cnt
+  | (OpRest j, _) :: r => if Nat.eqb j k then None else yielded_since_iter k r cnt
+  | _ :: r => yielded_since_iter k r cnt
+  end.
+
+(* next(it_k): Some j = sample j is due, None = StopIteration *)
+Definition next_due (len : Z) (k : nat) (past : list (op * nat)) : option nat :=
+  match yielded_since_iter k past 0 with
+  | Some j => if Z.of_nat j <? len then Some j else None
+  | None => None
+  end.
+
+(* for s in it_k: the samples still due *)
+Definition rest_due (len : Z) (k : nat) (past : list (op * nat)) : list nat :=
+  match yielded_since_iter k past 0 with
+  | Some j => seq j (Z.to_nat len - j)
+  | None => []
+  end.
